@@ -123,7 +123,7 @@ Definition th_facts1 (g : shared) (T : list thread) (rp : pc) (th : thread) : Pr
   | PTrig x => x = g_cur g /\ s_open (getst g x) = true /\ g_await g = None
   | PSend x => x = g_cur g /\ s_open (getst g x) = true /\ g_trig g = false /\ g_await g <> None /\
                rot_pend rp = false
-  | PWaiting c | PRecvAwait c => g_await g = Some c \/ g_await g = None
+  | PWaiting c | PRecvAwait c => c < length (g_chans g) /\ (g_await g = Some c \/ g_await g = None)
   | PRelock => g_await g = None
   | PM0 k => s_open (getst g (g_cur g)) = true /\ krot_f g T k
   | PM1 y k | PM2 y k | PM3 y k => y = g_cur g /\ s_open (getst g y) = true /\ krot_f g T k
